@@ -22,8 +22,10 @@ BATCH = 40
 CAPTURE = None
 
 
-def collect(module, rep):
-    """the replay items (abstract line, rendered text, configuration, expectation from TLC) of another property's generator"""
+def collect(module, rep, home=None):
+    """the replay items (abstract line, rendered text, configuration, expectation from TLC) of another property's generator;
+    cases on which the home property (home = its id) has a listed known finding are left out: the re-using property would only
+    report the same defect again"""
     global CAPTURE
     import vlib
     sub = vlib.Report(rep.pid, rep.tier, rep.seed)
@@ -35,6 +37,17 @@ def collect(module, rep):
     finally:
         CAPTURE = None
         vlib.SKIP_MC = False
+    if home:
+        kfs = [f for f in vlib.load_findings() if f.get("status") == "known" and f["property"] == home]
+
+        def hit(it):
+            feat = dict(it.get("feat", {}), form=it["line"]["form"])
+            for f in kfs:
+                m = {k: v for k, v in f["match"].items() if k != "failure"}
+                if all(vlib._match_field(c, feat.get(k)) for k, c in m.items()):
+                    return True
+            return False
+        items = [it for it in items if not hit(it)]
     for r in sub.tlc_runs:
         if r["cases_emitted"]:
             rep.states += r["distinct_states"]
